@@ -677,6 +677,9 @@ func (c *Collection) writeWithXattrs(
 			}
 		}
 		e.xattrs, _ = json.Marshal(xattrs)
+		if len(xattrs) == 0 {
+			e.xattrs = nil // "no xattrs" is stored as NULL on every path; `null` or `{}` would count as having some
+		}
 		// A document without a body is a tombstone, whichever path left it that way:
 		e.isDeletion = (e.value == nil)
 
